@@ -265,7 +265,10 @@ def r13_4(ctx):
     ctx.need(body_paths, "transform_insn: per-part loop not found")
     nop_paths = [bp for bp in body_paths if any(e.kind == "call" and isinstance(e.node, ast.Call) and call_tail(e.node) == "get_noped_meta" for e in bp.events)]
     real_paths = [bp for bp in body_paths if any(e.kind == "call" and isinstance(e.node, ast.Call) and call_tail(e.node) == "get_meta" for e in bp.events)]
-    ctx.need(nop_paths and real_paths, "transform_insn: no-op branch or compiling branch of the per-part loop not found")
+    ctx.check("transform_insn: the per-part loop has a no-op branch (get_noped_meta) and a compiling branch (transform, get_meta)", bool(nop_paths and real_paths),
+              "both branches", f"paths reporting get_noped_meta: {len(nop_paths)}, paths reporting get_meta: {len(real_paths)}", fn_where(idx, ti))
+    if not (nop_paths and real_paths):
+        return
 
     def noped_guard(bp, polarity):
         for g, pol in bp.guards:
